@@ -1,3 +1,4 @@
+import XdsVerif.Properties.C03
 import XdsVerif.Proofs.Seq
 import XdsVerif.Properties.C01
 import XdsVerif.Properties.C13
@@ -133,5 +134,31 @@ example : (run C01.exCfg init (C01.exOps ++
     [.push { rt := .lds, version := "2", nonce := "c", slots := [.good "10.0.0.1_8888" "L2", .bad] } 0])).map
       (fun s => (s.version .lds, s.cache .lds "echo:8888", s.queue.map (fun q => (q.version, q.nonce, q.err))))
     = some ("1", some "L1", [("1", "c", true)]) := by decide
+
+/-! ## The acknowledgement on its way to the wire (`Model/Flow.lean`)
+
+`ack_exact` says which request `updateAndACK` hands to `sendRequest`. Between there and the control plane lie the bounded
+channel and the sender. The acknowledging receiver is the `rResp / rAckLock / rAckEnq` thread of the request-path model. -/
+
+theorem facts_flow : Generated.flow = Flow.expectedFacts := C03.facts_flow
+
+/-- **exactly one request per response reaches the wire** while the stream lives: at quiescence of a stream that has
+not failed, the wire is exactly the sequence of requests handed to `sendRequest` — the acknowledgement among them, once,
+in its place — whatever else filled the channel in between -/
+theorem ack_reaches_wire_once {α : Type} (ls : List (Flow.Lbl α)) (s : Flow.S α) (h : Flow.run C03.cap Flow.init ls = some s)
+    (hn : Flow.NoFailure s) (hq : s.queue = []) (hi : Flow.inflight s = []) : s.sent.map (·.2) = s.enq :=
+  C03.quiescent_wire_complete ls s h hn hq hi
+
+/-- an acknowledgement is never discarded for lack of room: it is queued, sent, in `Send`, or lost together with its stream
+(dropped after a failed `Send` / drained by the reconnect — nonces of a dead stream must not be echoed on the next, C04) -/
+theorem ack_never_discarded {α : Type} (ls : List (Flow.Lbl α)) (s : Flow.S α) (h : Flow.run C03.cap Flow.init ls = some s) :
+    ∀ r ∈ s.enq, r ∈ s.queue ∨ r ∈ s.sent.map (·.2) ∨ r ∈ Flow.inflight s ∨ r ∈ s.dropped.map (·.1) ∨ r ∈ s.drained :=
+  C03.request_never_discarded ls s h
+
+/-! non-vacuity: an acknowledgement (7) waits behind a stalled `Send` while two lookups fill the channel; it is sent once -/
+example : (Flow.run 2 (Flow.init : Flow.S Nat)
+    [.pStart 0 1, .pLock 0, .pEnq 0, .sTakeReq, .stall, .rResp 7, .rAckLock, .rAckEnq, .pStart 1 2, .pLock 1, .pEnq 1,
+     .pStart 2 3, .pLock 2, .resume, .sSendDone, .sTakeReq, .pEnq 2, .sSendDone, .sTakeReq, .sSendDone, .sTakeReq, .sSendDone]).map
+    (fun s => s.sent.map (·.2)) = some [1, 7, 2, 3] := by decide
 
 end XdsVerif.Properties.C02
